@@ -48,8 +48,24 @@ ASSUME TableOK
 Case(g, t, prep, old, rhs, sc, pat) == [op |-> g, t |-> t, accept |-> Acc(g, t), prep |-> prep, old |-> old, rhs |-> rhs, sc |-> sc, pat |-> pat]
 \* (i) fresh operands; (ii) the receiver aged by every preparation of its type; (iii) operand variants of the pairs
 InitFresh == \E k \in 1..Len(Table) : \E t \in Tup(Table[k].ps) : cur = Case(Table[k].g, t, "", <<>>, "other", 0, "plain")
-InitAged == \E k \in 1..Len(Table) : \E t \in TupA(Table[k].ps) : \E p \in Preps(RecvTy(Table[k].g), t) :
-               cur = Case(Table[k].g, t, p.prep, p.old, "other", 0, "plain")
+\* aged receivers: the receiver's dimensions tr, a preparation p, and the remaining parameters.  Sizes among the remaining
+\* parameters also take the OLD dimensions (an operand fitting the old layout but not the new one); for the binary
+\* operations on matrices / band matrices the second operand has the new layout, the old layout, or a near miss.
+RECURSIVE TupR(_, _)
+TupR(ps, ov) == IF ps = <<>> THEN {<<>>}
+                ELSE {<<x>> \o t : x \in (IF Head(ps) = "n" THEN RngOf("n", AgedMax, ASmall) \cup ov ELSE RngOf(Head(ps), AgedMax, ASmall)), t \in TupR(Tail(ps), ov)}
+Rest(row, tr, p) ==
+  LET rl == Len(tr)
+      ov == {p.old[j] : j \in 1..Len(p.old)}
+  IN IF row.g \in SameTyBinary /\ rl = 2 THEN {tr, p.old, <<tr[2], tr[1]>>, <<p.old[2], p.old[1]>>}
+     ELSE IF row.g \in SameTyBinary /\ rl = 3 THEN {tr, p.old, <<tr[1] + 1, tr[2], tr[3]>>}
+     ELSE TupR(SubSeq(row.ps, rl + 1, Len(row.ps)), ov)
+InitAged == \E k \in 1..Len(Table) :
+              LET row == Table[k]
+                  ty == RecvTy(row.g)
+              IN /\ ty # "none"
+                 /\ \E tr \in TupA(SubSeq(row.ps, 1, RecvLen(ty))) : \E p \in Preps(ty, tr) : \E rest \in Rest(row, tr, p) :
+                       cur = Case(row.g, tr \o rest, p.prep, p.old, "other", 0, "plain")
 InitVar == \E k \in 1..Len(Table) : \E t \in {u \in TupA(Table[k].ps) : Acc(Table[k].g, u)} : \E v \in Variants(Table[k].g, t) :
                cur = Case(Table[k].g, t, "", <<>>, v.rhs, v.sc, "mixed")
 Init == InitFresh \/ InitAged \/ InitVar
